@@ -60,8 +60,8 @@ static void runC01(const KCase& c, Ctx& ctx, const RunOpt& ro)
 
   bool wantVarz = c.flagVarz != 0;
   KOut out = runKriging(c, w, ctx, wantVarz);
-  if (out.err != 0) { ctx.fail("kriging-error:" + V, "kriging() returns an error on a valid configuration"); return; }
-  if (!out.cols) { ctx.fail("kriging-columns:" + V, "kriging() did not create the documented result columns Kriging.<var>.estim/stdev/varz"); return; }
+  if (out.err != 0) { ctx.fail(c.key("kriging-error"), "kriging() returns an error on a valid configuration"); return; }
+  if (!out.cols) { ctx.fail(c.key("kriging-columns"), "kriging() did not create the documented result columns Kriging.<var>.estim/stdev/varz"); return; }
 
   int nChecked = 0, nIll = 0, maxNb = 0;
   double kapMax = 0;
@@ -85,7 +85,7 @@ static void runC01(const KCase& c, Ctx& ctx, const RunOpt& ro)
       std::sort(sorted.begin(), sorted.end());
       if (sorted != nr.nb)
       {
-        ctx.fail("nbgh:" + V, fmt("target %d: krigtest().nbgh = %s, neighbourhood by definition = %s", k, setText(sorted).c_str(), setText(nr.nb).c_str()));
+        ctx.fail(c.key("nbgh"), fmt("target %d: krigtest().nbgh = %s, neighbourhood by definition = %s", k, setText(sorted).c_str(), setText(nr.nb).c_str()));
         return;
       }
       nbUse = nbl;
@@ -112,24 +112,24 @@ static void runC01(const KCase& c, Ctx& ctx, const RunOpt& ro)
       LD tolE = (LD)ek * S.scaleE[(size_t)tv] + floorE(S, eta);
       if (isNA(e) || std::isnan(e))
       {
-        ctx.fail("estim-na:" + V, fmt("target %d var %d: estimate undefined (%g) although the system is regular (kappa %.3g, %d unknowns); oracle %.12Lg", k, tv, e, S.kappa, S.N, S.estim[(size_t)tv]));
+        ctx.fail(c.key("estim-na"), fmt("target %d var %d: estimate undefined (%g) although the system is regular (kappa %.3g, %d unknowns); oracle %.12Lg", k, tv, e, S.kappa, S.N, S.estim[(size_t)tv]));
         return;
       }
       if (fabsl((LD)e - S.estim[(size_t)tv]) > tolE)
       {
-        ctx.fail("estim:" + V, fmt("target %d var %d: estim %.15g, oracle %.15Lg (diff %.3Lg, tol %.3Lg, kappa %.3g, N %d, %s)", k, tv, e, S.estim[(size_t)tv], fabsl((LD)e - S.estim[(size_t)tv]), tolE, S.kappa, S.N, topo(c).c_str()));
+        ctx.fail(c.key("estim"), fmt("target %d var %d: estim %.15g, oracle %.15Lg (diff %.3Lg, tol %.3Lg, kappa %.3g, N %d, %s)", k, tv, e, S.estim[(size_t)tv], fabsl((LD)e - S.estim[(size_t)tv]), tolE, S.kappa, S.N, topo(c).c_str()));
         return;
       }
       LD tolV = (LD)ek * S.scaleV[(size_t)tv] + floorV(S, eta, tv);
       LD vo = std::max((LD)0, S.var[(size_t)tv]);
       if (isNA(s) || std::isnan(s) || s < 0)
       {
-        ctx.fail("stdev-na:" + V, fmt("target %d var %d: stdev %g although the system is regular (kappa %.3g); oracle variance %.12Lg", k, tv, s, S.kappa, S.var[(size_t)tv]));
+        ctx.fail(c.key("stdev-na"), fmt("target %d var %d: stdev %g although the system is regular (kappa %.3g); oracle variance %.12Lg", k, tv, s, S.kappa, S.var[(size_t)tv]));
         return;
       }
       if (fabsl((LD)s * s - vo) > tolV)
       {
-        ctx.fail("stdev:" + V, fmt("target %d var %d: stdev^2 %.15g, oracle variance %.15Lg (diff %.3Lg, tol %.3Lg, kappa %.3g, sigma00 %.12Lg, %s)", k, tv, s * s, S.var[(size_t)tv], fabsl((LD)s * s - vo), tolV, S.kappa, S.C00(tv, tv), topo(c).c_str()));
+        ctx.fail(c.key("stdev"), fmt("target %d var %d: stdev^2 %.15g, oracle variance %.15Lg (diff %.3Lg, tol %.3Lg, kappa %.3g, sigma00 %.12Lg, %s)", k, tv, s * s, S.var[(size_t)tv], fabsl((LD)s * s - vo), tolV, S.kappa, S.C00(tv, tv), topo(c).c_str()));
         return;
       }
       if (wantVarz)
@@ -137,7 +137,7 @@ static void runC01(const KCase& c, Ctx& ctx, const RunOpt& ro)
         double z = out.varz[(size_t)(k * nv + tv)];
         if (isNA(z) || std::isnan(z) || fabsl((LD)z - S.varz[(size_t)tv]) > tolV)
         {
-          ctx.fail("varz:" + V, fmt("target %d var %d: varz %.15g, oracle %.15Lg (tol %.3Lg, kappa %.3g)", k, tv, z, S.varz[(size_t)tv], tolV, S.kappa));
+          ctx.fail(c.key("varz"), fmt("target %d var %d: varz %.15g, oracle %.15Lg (tol %.3Lg, kappa %.3g)", k, tv, z, S.varz[(size_t)tv], tolV, S.kappa));
           return;
         }
       }
@@ -148,7 +148,7 @@ static void runC01(const KCase& c, Ctx& ctx, const RunOpt& ro)
     if (kt.wgt.getNRows() != S.N || kt.wgt.getNCols() != nv || kt.zam.getNRows() != S.N || kt.zam.getNCols() != 1 ||
         kt.var.getNRows() != nv || kt.nech != S.N || kt.neq != nv * (int)nbUse.size() + S.nfeq)
     {
-      ctx.fail("krigtest-dims:" + V, fmt("target %d: wgt %dx%d zam %dx%d nech %d neq %d; expected %d reduced equations, %d full", k, kt.wgt.getNRows(), kt.wgt.getNCols(), kt.zam.getNRows(), kt.zam.getNCols(), kt.nech, kt.neq, S.N, nv * (int)nbUse.size() + S.nfeq));
+      ctx.fail(c.key("krigtest-dims"), fmt("target %d: wgt %dx%d zam %dx%d nech %d neq %d; expected %d reduced equations, %d full", k, kt.wgt.getNRows(), kt.wgt.getNCols(), kt.zam.getNRows(), kt.zam.getNCols(), kt.nech, kt.neq, S.N, nv * (int)nbUse.size() + S.nfeq));
       return;
     }
     MatL W = toL(kt.wgt), Z = toL(kt.zam);
@@ -162,7 +162,7 @@ static void runC01(const KCase& c, Ctx& ctx, const RunOpt& ro)
       {
         int rmax = 0;
         R.col(tv).cwiseAbs().maxCoeff(&rmax);
-        ctx.fail("wgt-residual:" + V, fmt("target %d var %d: |A w - b| = %.3Lg at row %d (%s) > %.3Lg (kappa %.3g, N %d, %s); max|w - oracle| = %.3Lg", k, tv, res, rmax, rmax < S.nu ? "covariance" : "drift", bound, S.kappa, S.N, topo(c).c_str(), (W.col(tv) - S.sol.col(tv)).cwiseAbs().maxCoeff()));
+        ctx.fail(c.key("wgt-residual"), fmt("target %d var %d: |A w - b| = %.3Lg at row %d (%s) > %.3Lg (kappa %.3g, N %d, %s); max|w - oracle| = %.3Lg", k, tv, res, rmax, rmax < S.nu ? "covariance" : "drift", bound, S.kappa, S.N, topo(c).c_str(), (W.col(tv) - S.sol.col(tv)).cwiseAbs().maxCoeff()));
         return;
       }
     }
@@ -172,7 +172,7 @@ static void runC01(const KCase& c, Ctx& ctx, const RunOpt& ro)
       LD bound = (LD)er * (S.normA * Z.cwiseAbs().maxCoeff() + S.zext.cwiseAbs().maxCoeff()) + (LD)epsIn(eta) * (LD)S.covScale * Z.cwiseAbs().sum();
       if (!(res <= bound))
       {
-        ctx.fail("zam-residual:" + V, fmt("target %d: |A zam - (z - m)| = %.3Lg > %.3Lg (kappa %.3g, %s)", k, res, bound, S.kappa, topo(c).c_str()));
+        ctx.fail(c.key("zam-residual"), fmt("target %d: |A zam - (z - m)| = %.3Lg > %.3Lg (kappa %.3g, %s)", k, res, bound, S.kappa, topo(c).c_str()));
         return;
       }
     }
@@ -183,7 +183,7 @@ static void runC01(const KCase& c, Ctx& ctx, const RunOpt& ro)
         for (int b = 0; b < nv; b++)
           if (!(fabsl(C(a, b) - S.C00(a, b)) <= tol))
           {
-            ctx.fail("var0:" + V, fmt("target %d: krigtest().var(%d,%d) = %.15Lg, sigma00 from the model = %.15Lg", k, a, b, C(a, b), S.C00(a, b)));
+            ctx.fail(c.key("var0"), fmt("target %d: krigtest().var(%d,%d) = %.15Lg, sigma00 from the model = %.15Lg", k, a, b, C(a, b), S.C00(a, b)));
             return;
           }
     }
@@ -267,6 +267,136 @@ static void runC01(const KCase& c, Ctx& ctx, const RunOpt& ro)
   ctx.nontrivial(nChecked > 0 && nontrivial(c, maxNb));
 }
 
+// ------------------------------------------------------------------ cross-validation -----
+// xvalid(): every active sample is estimated from the others (leave-one-out); the documented outputs are
+// Z*-Z or Z* ("esterr"/"estim") and (Z*-Z)/S or S ("stderr"/"stdev").  Oracle: the kriging system of the
+// target x_i over the neighbourhood of x_i deprived of sample i.  In a unique neighbourhood the library uses
+// the inverse of the complete system instead (monovariate only): same quantity by a different route.
+struct XCase
+{
+  KCase k;
+  int est = 1, std = 1;
+  template<class A> void io(A& a) { a("k", k)("est", est)("std", std); }
+};
+static XCase genXvalid()
+{
+  XCase x;
+  GenOpt o;
+  o.verrPct = 0; // with measurement errors the two routes of the library estimate different things (noisy / noise-free datum)
+  o.onDataPct = 0;
+  o.nMax = 30;
+  bool uniq = G::pct(45);
+  o.movingPct = uniq ? 0 : 100;
+  if (uniq) o.nvarMax = 1;
+  x.k = genCase(o);
+  x.est = G::pick<int>({1, -1});
+  x.std = G::pick<int>({1, -1});
+  return x;
+}
+static void runXvalid(const XCase& x, Ctx& ctx)
+{
+  const KCase& c = x.k;
+  labelCase(c, ctx);
+  ctx.label(fmt("xvalid:est%+d:std%+d", x.est, x.std));
+  ctx.sig = Hash().add(signature(c)).add(x.est).add(x.std).h;
+  World w;
+  if (!buildWorld(c, w, ctx)) return;
+  std::string V = std::string("xvalid:") + c.family() + ":" + (c.moving ? "moving" : "unique");
+  int n = c.n(), nv = c.nvar;
+  Ctx dummy;
+  std::unique_ptr<Model> om = buildModel(c, dummy);
+  if (!om) { ctx.fail("harness:model", "second model construction failed"); return; }
+  om->setField(Oracle::fieldOf(c, w.dbin.get()));
+  Oracle orc(c, om.get());
+  double eta = etaIn(c);
+
+  ctx.at(V);
+  int err = xvalid(w.dbin.get(), w.model.get(), w.neigh.get(), false, x.est, x.std, 0);
+  if (err != 0) { ctx.fail("xvalid-error:" + V, "xvalid() returns an error on a valid configuration"); return; }
+  std::vector<VectorDouble> E, Sd;
+  for (int v = 0; v < nv; v++)
+  {
+    std::string base = "Xvalid.z" + std::to_string(v + 1);
+    std::string ne = base + (x.est > 0 ? ".esterr" : ".estim"), ns = base + (x.std > 0 ? ".stderr" : ".stdev");
+    if (w.dbin->getUID(ne) < 0 || w.dbin->getUID(ns) < 0)
+    {
+      ctx.fail("xvalid-columns:" + V, "xvalid() did not create the documented columns " + ne + " / " + ns);
+      return;
+    }
+    E.push_back(w.dbin->getColumn(ne, false));
+    Sd.push_back(w.dbin->getColumn(ns, false));
+  }
+  int nChecked = 0, nIll = 0, maxNb = 0;
+  KCase cx = c; // targets = the data themselves
+  cx.block = 0;
+  cx.targ = c.data;
+  cx.ftar = c.fdat;
+  Oracle orx(cx, om.get());
+  for (int i = 0; i < n; i++)
+  {
+    if (!c.active(i) || !c.anyDef(i)) continue;
+    TargetGeom g;
+    g.x0.assign(c.data.p(i), c.data.p(i) + c.ndim);
+    NbRef nr = refNeigh(c, g.x0.data(), i);
+    if (nr.ambiguous) { ctx.label("target:ambiguous-neigh"); continue; }
+    if (nr.empty()) { ctx.label("target:empty-neigh"); continue; }
+    Sys S;
+    orx.solve(i, g, nr.nb, S);
+    maxNb = std::max(maxNb, (int)nr.nb.size());
+    if (!S.solved || !(S.kappa <= kKappaMax)) { nIll++; continue; }
+    // the unique-neighbourhood route inverts the complete system (with sample i): gate on it as well
+    double kap = S.kappa;
+    if (!c.moving)
+    {
+      NbRef all = refNeigh(c, g.x0.data());
+      Sys Sa;
+      orx.solve(i, g, all.nb, Sa);
+      if (!Sa.solved || !(Sa.kappa <= kKappaMax)) { nIll++; continue; }
+      kap = std::max(kap, Sa.kappa);
+    }
+    double ek = epsK(kap, eta);
+    nChecked++;
+    for (int v = 0; v < nv; v++)
+    {
+      if (!c.zdef(i, v)) continue; // Z*-Z undefined; with est = -1 the moving route still gives Z*, the unique one nothing
+      LD z = (LD)c.z[(size_t)(i * nv + v)];
+      LD eo = S.estim[(size_t)v], vo = S.var[(size_t)v];
+      LD tolE = (LD)ek * (S.scaleE[(size_t)v] + fabsl(z)) + floorE(S, eta);
+      LD tolV = (LD)ek * S.scaleV[(size_t)v] + floorV(S, eta, v);
+      double e = E[(size_t)v][i], s = Sd[(size_t)v][i];
+      LD want = (x.est > 0) ? eo - z : eo;
+      if (isNA(e) || std::isnan(e) || fabsl((LD)e - want) > tolE)
+      {
+        ctx.fail("esterr:" + V, fmt("sample %d var %d: %s = %.15g, leave-one-out kriging gives %.15Lg (tol %.3Lg, kappa %.3g, %d neighbours)", i, v, x.est > 0 ? "Z*-Z" : "Z*", e, want, tolE, kap, (int)nr.nb.size()));
+        return;
+      }
+      if (x.std < 0)
+      {
+        if (isNA(s) || std::isnan(s) || s < 0 || fabsl((LD)s * s - std::max((LD)0, vo)) > tolV)
+        {
+          ctx.fail("stdev:" + V, fmt("sample %d var %d: S^2 = %.15g, leave-one-out kriging variance %.15Lg (tol %.3Lg, kappa %.3g)", i, v, s * s, vo, tolV, kap));
+          return;
+        }
+      }
+      else
+      {
+        // (Z*-Z)/S: meaningful only when S is well above its own error
+        if (vo <= 0 || tolV > 1e-3 * vo) { ctx.label("stderr:variance-too-small"); continue; }
+        LD sd = sqrtl(vo);
+        LD wantS = (eo - z) / sd;
+        LD tolS = tolE / sd + fabsl(wantS) * tolV / (2 * vo) * 2;
+        if (isNA(s) || std::isnan(s) || fabsl((LD)s - wantS) > tolS)
+        {
+          ctx.fail("stderr:" + V, fmt("sample %d var %d: (Z*-Z)/S = %.15g, leave-one-out kriging gives %.15Lg (tol %.3Lg, kappa %.3g)", i, v, s, wantS, tolS, kap));
+          return;
+        }
+      }
+    }
+  }
+  if (nChecked == 0 && nIll > 0) ctx.inconclusive("ill-conditioned");
+  ctx.nontrivial(nChecked > 0 && maxNb >= 2);
+}
+
 // ------------------------------------------------------------------ sub-properties -------
 static GenOpt optFamily(int fam)
 {
@@ -345,4 +475,5 @@ VERIF_SUB(block_rotated, KCase, genBlockRot, runStd);
 VERIF_SUB(verr, KCase, genVerr, runStd);
 VERIF_SUB(intrinsic, KCase, genIntrinsic, runStd);
 VERIF_SUB(krigtest_fields, KCase, genFields, runFields);
+VERIF_SUB(xvalid, XCase, genXvalid, runXvalid);
 VERIF_MAIN()
